@@ -118,6 +118,18 @@ func scenario(x *explore.X) {
 	if kind == "tunnel" && !shutdownMid {
 		halfClosed = x.ChooseFree("client-half-closes-before-the-download", 2) == 1
 	}
+	// the sender may write its bulk in one piece or in many small ones (1000 octets: smaller than every buffer of the
+	// relay, so the proxy's own reads and writes are small too); the limit is on octets, not on calls
+	piece := []int{0, 1000}[x.ChooseFree("sender-write-size", 2)]
+	send := func(p *world.Peer, b []byte) {
+		if piece == 0 {
+			p.SendNoWait(b)
+			return
+		}
+		for off := 0; off < len(b); off += piece {
+			p.SendNoWait(b[off:min(off+piece, len(b))])
+		}
+	}
 	opts := world.Options{ReadLimit: r, WriteLimit: wl, ShutdownTimeout: 48 * time.Hour}
 	if withTimeouts {
 		opts.Tweak = func(cfg *forwarder.HTTPProxyConfig, _ *forwarder.HTTPTransportConfig) {
@@ -159,6 +171,9 @@ func scenario(x *explore.X) {
 	if shutdownMid {
 		what += " (graceful shutdown requested after the second sample)"
 	}
+	if piece > 0 {
+		what += fmt.Sprintf(" (sent in pieces of %d octets)", piece)
+	}
 	if withTimeouts {
 		what += " (read-timeout 2s, write-timeout 3s)"
 	}
@@ -186,7 +201,7 @@ func scenario(x *explore.X) {
 		}
 		head := []byte(fmt.Sprintf("HTTP/1.1 200 OK\r\nContent-Length: %d\r\n\r\n", size))
 		for _, oc := range org.Raw {
-			oc.SendNoWait(append(append([]byte{}, head...), down...))
+			send(oc, append(append([]byte{}, head...), down...))
 		}
 		total := func() int64 {
 			var n int64
@@ -209,7 +224,7 @@ func scenario(x *explore.X) {
 	case "upload":
 		head := []byte(fmt.Sprintf("POST http://origin.test/u HTTP/1.1\r\nHost: origin.test\r\nContent-Length: %d\r\n\r\n", size))
 		for _, c := range clients {
-			c.SendNoWait(append(append([]byte{}, head...), up...))
+			send(c, append(append([]byte{}, head...), up...))
 		}
 		// bytes the proxy has accepted from clients = bytes consumed from the client sockets
 		total := func() int64 {
@@ -270,7 +285,7 @@ func scenario(x *explore.X) {
 		}
 		// towards the clients first, then towards the target, each traced on its own
 		for _, tc := range tun.Raw {
-			tc.SendNoWait(down)
+			send(tc, down)
 		}
 		totalDown := func() int64 {
 			var n int64
@@ -300,7 +315,7 @@ func scenario(x *explore.X) {
 			return n
 		}()
 		for _, c := range clients {
-			c.SendNoWait(up)
+			send(c, up)
 		}
 		totalUp := func() int64 {
 			var n int64
@@ -349,7 +364,7 @@ func scenario(x *explore.X) {
 
 func TestC20(t *testing.T) {
 	s := explore.NewSuite(t, "C20", "model_checking",
-		"(read-limit, write-limit) in {0, 1 MiB/s, 64 MiB/s, 300 MiB/s, 16 KiB/s, 3000 B/s}^2 (the last two are smaller than one relay buffer / one bufio buffer) x transfer {download, upload, CONNECT tunnel both ways} of 12 MiB per connection (burst + 256 KiB with a limit below 1 MiB/s) x {1,2,3} connections sharing the listener x {no shutdown, graceful shutdown requested while the transfer is under way} x {no client-side time limits, read-timeout 2 s + write-timeout 3 s (bound only)} x (tunnels) {client keeps sending, client half-closes before the download} [full product]; on the virtual clock the receiving side's (time, cumulative bytes) is sampled 64+ times per transfer (states = samples) and the token-bucket bound bytes <= burst + rate x dt + one 64 KiB write per connection is checked between EVERY pair of samples, plus minimum duration, zero virtual time for an unlimited direction, and byte-for-byte identity of the data")
+		"(read-limit, write-limit) in {0, 1 MiB/s, 64 MiB/s, 300 MiB/s, 16 KiB/s, 3000 B/s}^2 (the last two are smaller than one relay buffer / one bufio buffer) x transfer {download, upload, CONNECT tunnel both ways} of 12 MiB per connection (burst + 256 KiB with a limit below 1 MiB/s) x {1,2,3} connections sharing the listener x {no shutdown, graceful shutdown requested while the transfer is under way} x {no client-side time limits, read-timeout 2 s + write-timeout 3 s (bound only)} x (tunnels) {client keeps sending, client half-closes before the download} x sender writes {one piece, pieces of 1000 octets} [full product]; on the virtual clock the receiving side's (time, cumulative bytes) is sampled 64+ times per transfer (states = samples) and the token-bucket bound bytes <= burst + rate x dt + one 64 KiB write per connection is checked between EVERY pair of samples, plus minimum duration, zero virtual time for an unlimited direction, and byte-for-byte identity of the data")
 	s.Assume = []string{"virtual clock of testing/synctest drives golang.org/x/time/rate", "documented slack: the limiter is charged after each write, so one write (<= 64 KiB) per connection may exceed the bucket", "simnet receive buffers are unbounded, so the only throttle is the limiter under test"}
 	s.Add(explore.Scenario{Name: "limits", Remote: true, Run: func(x *explore.X) { world.Run(t, x, func() { scenario(x) }) }})
 	s.Main()
